@@ -107,8 +107,11 @@ Section AddRxn.
     Forall (fun x => In x (mdecl (is_cond (ri_type ri)) prev)) (ri_reactants ri) ->
     Forall (fun x => In x (mdecl (is_cond (ri_type ri)) prev)) (ri_products ri) ->
     (forall ri', In ri' (decl_rxns prev) -> sig_differs (rxn_sig prev ri') (rxn_sig prev ri)) ->
-    exists r' acc', read_one ct G None (TList line) acc r = (r', Ok acc') /\
-      SInv (prev ++ [SRxn ri]) r' acc' /\ Later r acc r' acc'.
+    exists r' i, (forall accR, read_one ct G None (TList line) accR r =
+                                 (r', Ok (apply_delta (FRxn (is_cond (ri_type ri)) (r_st r') i) accR))) /\
+      SInv (prev ++ [SRxn ri]) r' (apply_delta (FRxn (is_cond (ri_type ri)) (r_st r') i) acc) /\
+      Later r acc r' (apply_delta (FRxn (is_cond (ri_type ri)) (r_st r') i) acc) /\
+      (forall l, (forall j, In j l -> In j (po_det acc ++ po_con acc)) -> set_add (r_st r') i l = l ++ [i]).
   Proof.
     intros SI Hdec Hrate Hne HR HP Hsig. pose proof SI as [C B].
     set (cond := is_cond (ri_type ri)) in *. set (t := ri_type ri) in *.
@@ -221,28 +224,33 @@ Section AddRxn.
     fold st in C', L'. fold i in C', L'. fold r' in C', L'. fold acc' in C', L'.
     (* the if/elif chain *)
     assert (Hoi : hget (heap (r_st r1x)) i = Some (new_obj cr nm key [] temps d)) by apply hget_new.
-    assert (Ef : file_obj ct G (RObj i) acc r1x = (r1x, Ok (acc', [i]))).
-    { rewrite (file_obj_rxn ct cd cs cc cm cr CO i acc r1x t).
-      - change (is_s t sCondensed) with cond. f_equal. f_equal. f_equal.
-        assert (Esa : forall l, (forall j, In j l -> In j (po_det acc ++ po_con acc)) -> set_add (r_st r1x) i l = l ++ [i]).
-        { intros l Hl. change (set_add (r_st r1x) i l) with (set_add (r_st r') i l).
-          apply (set_add_new ct (r_st r') i (new_obj cr nm key [] temps d) l (proj1 (si_sok _ _ _ _ _ _ _ _ _ C')) Hoi eq_refl).
-          intros j Hj. destruct (Hold j (Hl j Hj)) as [ri' [k' [nm' [ch' [d' [_ [_ H3]]]]]]].
-          split; [assert (Hji : j < i) by (apply hget_lt in H3; exact H3); lia|].
-          exists (new_obj cr nm' k' [] ch' d'). split; [|split; reflexivity].
-          exact (hget_old_some _ _ _ _ H3). }
-        unfold acc', add_rxn. destruct cond.
-        + rewrite Esa; [reflexivity | intros j Hj; apply in_or_app; right; exact Hj].
-        + rewrite Esa; [reflexivity | intros j Hj; apply in_or_app; left; exact Hj].
-      - unfold ClsAt, cls_at. rewrite Hoi. reflexivity.
-      - unfold rtype_of. rewrite Hoi. reflexivity. }
-    pose proof (read_one_ok ct cd cs cc cm cr line (SRxn ri) acc r r1x (RObj i) r1x (acc', [i]) Hdec Ex Ef) as E3.
-    cbn [fst snd] in E3. fold st in E3.
+    assert (Esa : forall l, (forall j, In j l -> In j (po_det acc ++ po_con acc)) -> set_add (r_st r') i l = l ++ [i]).
+    { intros l Hl.
+      apply (set_add_new ct (r_st r') i (new_obj cr nm key [] temps d) l (proj1 (si_sok _ _ _ _ _ _ _ _ _ C')) Hoi eq_refl).
+      intros j Hj. destruct (Hold j (Hl j Hj)) as [ri' [k' [nm' [ch' [d' [_ [_ H3]]]]]]].
+      split; [assert (Hji : j < i) by (apply hget_lt in H3; exact H3); lia|].
+      exists (new_obj cr nm' k' [] ch' d'). split; [|split; reflexivity].
+      exact (hget_old_some _ _ _ _ H3). }
+    assert (Eacc : apply_delta (FRxn cond (r_st r') i) acc = acc').
+    { unfold acc', add_rxn, apply_delta. destruct cond.
+      - rewrite Esa; [reflexivity | intros j Hj; apply in_or_app; right; exact Hj].
+      - rewrite Esa; [reflexivity | intros j Hj; apply in_or_app; left; exact Hj]. }
     assert (Ecut : cut_roots (r_st r1x) (length (roots st)) [i] = r_st r').
     { unfold r1x, r', cut_roots, holds, hold. cbn [r_st]. rewrite mk_new_with_roots.
       unfold with_roots. cbn [heap classes roots map]. rewrite roots_mk_new, <- app_assoc, firstn_roots. reflexivity. }
-    rewrite Ecut, (collect_id ct _ (si_sok _ _ _ _ _ _ _ _ _ C')) in E3.
-    exists r', acc'. split; [exact E3|]. split; [|exact L']. split; [exact C'|].
+    assert (E3 : forall accR, read_one ct G None (TList line) accR r = (r', Ok (apply_delta (FRxn cond (r_st r') i) accR))).
+    { intros accR.
+      assert (Ef : file_obj ct G (RObj i) accR r1x = (r1x, Ok (apply_delta (FRxn cond (r_st r') i) accR, [i]))).
+      { rewrite (file_obj_rxn ct cd cs cc cm cr CO i accR r1x t).
+        - reflexivity.
+        - unfold ClsAt, cls_at. rewrite Hoi. reflexivity.
+        - unfold rtype_of. rewrite Hoi. reflexivity. }
+      pose proof (read_one_ok ct cd cs cc cm cr line (SRxn ri) accR r r1x (RObj i) r1x _ Hdec Ex Ef) as E3.
+      cbn [fst snd] in E3. fold st in E3.
+      rewrite Ecut, (collect_id ct _ (si_sok _ _ _ _ _ _ _ _ _ C')) in E3. exact E3. }
+    exists r', i. split; [exact E3|]. rewrite Eacc.
+    split; [|split; [exact L' | exact Esa]].
+    split; [exact C'|].
     intros s0 Hs0. apply in_app_or in Hs0. destruct Hs0 as [Hs0|[<-|[]]].
     - eapply built_later; [exact L' | apply B; exact Hs0].
     - cbn [Built ReaderSysA.Built]. exists i.
